@@ -97,7 +97,7 @@ func (se *SpecEnv) evalTerm(e SExpr) (*Term, types.Type) {
 	case *constVal:
 		return se.materialize(x, nil, t), t
 	case *Addr:
-		se.fail(e, "address used as value")
+		return se.ex.loadAddr(se.cur, x), t
 	}
 	se.fail(e, "expression is not first-order (%T)", v)
 	return nil, nil
@@ -239,6 +239,20 @@ func isUntyped(t types.Type) bool {
 }
 
 func (se *SpecEnv) unify(av Value, at types.Type, bv Value, bt types.Type) (*Term, *Term, types.Type) {
+	switch av.(type) {
+	case *Closure, *FuncVal:
+		av = se.ex.funcRefOf(av)
+	}
+	switch bv.(type) {
+	case *Closure, *FuncVal:
+		bv = se.ex.funcRefOf(bv)
+	}
+	if a, ok := av.(*Addr); ok {
+		av = se.ex.loadAddr(se.cur, a)
+	}
+	if b, ok := bv.(*Addr); ok {
+		bv = se.ex.loadAddr(se.cur, b)
+	}
 	ac, aIsC := av.(*constVal)
 	bc, bIsC := bv.(*constVal)
 	switch {
@@ -513,7 +527,7 @@ func (se *SpecEnv) fieldOf(x SExpr, v Value, t types.Type, name string) (Value, 
 			}
 		case *Addr:
 			na := *b
-			na.path = append(append([]pathElem{}, b.path...), pathElem{vc.SortOf(curT), cs, fi})
+			na.path = append(append([]pathElem{}, b.path...), pathElem{structSort: vc.SortOf(curT), structT: cs, field: fi})
 			na.typ = f.Type()
 			if isStructType(f.Type()) {
 				curV = &na
@@ -699,6 +713,10 @@ func (se *SpecEnv) callExpr(x *SCall) (Value, types.Type) {
 		case "abs":
 			v, t := se.evalTerm(x.Args[0])
 			return Ite(vc.Cmp(">=", v, se.materialize(&constVal{big.NewRat(0, 1)}, v, t), t), v, vc.Arith("-", se.materialize(&constVal{big.NewRat(0, 1)}, v, t), v, t)), t
+		case "setmin":
+			v, _ := se.evalTerm(x.Args[0])
+			vc.declare("cpuset.min", "(declare-fun cpuset.min ((Set Int)) Int)")
+			return App("cpuset.min", SInt, v), types.Typ[types.Int]
 		case "singleton":
 			v, t := se.eval(x.Args[0])
 			return vc.SetOp("singleton", se.materialize(v, Sym("x", SInt), t)), se.ex.eng.cpusetType()
@@ -902,6 +920,29 @@ func (se *SpecEnv) callRealFree(x SExpr, fn *ssa.Function, free []Value, args []
 	if m, ok := models[fn.String()]; ok {
 		sub := se.cur.clone()
 		return m(ex, se.fr, sub, se.reach, args, nil), rt
+	}
+	if fc := ex.eng.cs.Funcs[funcKey(fn)]; fc != nil && ex.top != fn {
+		if _, defines := fc.Opts["defines"]; defines {
+			// the function's contract has a defining postcondition `result == E` (proved for the body):
+			// in specifications a call means E, evaluated over the callee's parameters and captured variables
+			for _, e := range fc.Ensures {
+				if b, ok := e.Expr.(*SBin); ok && b.Op == "==" {
+					if id, ok := b.L.(*SIdent); ok && id.Name == "result" {
+						pf := &frame{fn: fn, env: map[ssa.Value]Value{}, free: free}
+						sub := &SpecEnv{ex: ex, pkg: ex.eng.typesPkg(fc.Pkg), names: map[string]specBinding{}, cur: se.cur, old: se.old, reach: se.reach, fr: pf, depth: se.depth + 1}
+						for i, p := range fn.Params {
+							pf.env[p] = args[i]
+							sub.names[p.Name()] = specBinding{args[i], p.Type()}
+						}
+						v, _ := sub.eval(b.R)
+						if c, ok := v.(*constVal); ok {
+							v = se.materialize(c, nil, rt)
+						}
+						return v, rt
+					}
+				}
+			}
+		}
 	}
 	if fc := ex.eng.cs.Funcs[funcKey(fn)]; fc != nil && ex.top != nil && ex.top != fn {
 		if _, functional := fc.Opts["functional"]; functional {
